@@ -13,7 +13,7 @@ variable {K : Type} [Field K] [DecidableEq K]
 3cdafb665db7ece0d0af4029e64300e90c4cd591aa39df1eb1ed2b4098cb3e62).
 Defaults: none.
   note: `NamedSignal(...)._parse_key(key, level=1)` and `_process_subsys_index` are read as the identity on index lists that are already resolved (their own source tie: C17Gen) -/
-def frdGetitem (self : PyFRD K) (key : List Nat × List Nat) : Except Err (PyFRD K) :=
+def frdGetitemData (self : PyFRD K) (key : List Nat × List Nat) : Except Err (PyFRD K) :=
   do
     let t1 ← PArr3.getFreq (PyFRD.frdata self) (0 : Nat)
     let indices : List Nat × List Nat := key
